@@ -179,7 +179,14 @@ Corollary initialize_bounded cfg w :
 Proof. unfold initialize. apply single_stream_call_bounded. Qed.
 Corollary get_pending_bounded cfg w :
   let '(_, w') := get_pending cfg w in w_now w <= w_now w' <= w_now w + Bt TIMEOUT.
-Proof. unfold get_pending. apply single_stream_call_bounded. Qed.
+Proof.
+  unfold get_pending.
+  match goal with |- context [consume LOOPFUEL cfg (start_retry ?q TIMEOUT) w ?a ?h ?fin] =>
+    pose proof (single_stream_call_bounded cfg q TIMEOUT w a h fin LOOPFUEL) as K;
+    destruct (consume LOOPFUEL cfg (start_retry q TIMEOUT) w a h fin) as [[l|e] w1] end; [exact K|].
+  assert (D : w_now (drop_cur w1) = w_now w1) by (unfold drop_cur; destruct (w_cur w1); reflexivity).
+  destruct e; try exact K. rewrite D. exact K.
+Qed.
 Corollary cancel_by_receipt_bounded cfg rn w :
   let '(_, w') := cancel_by_receipt cfg rn w in w_now w <= w_now w' <= w_now w + Bt TIMEOUT.
 Proof. unfold cancel_by_receipt. apply single_stream_call_bounded. Qed.
@@ -197,14 +204,25 @@ Proof.
   destruct (handle acc i v) as [[res|] acc'] eqn:E; [apply (Hh _ _ _ _ _ E)|apply IH].
 Qed.
 
-Lemma pending_at_most_one cfg w : match fst (get_pending cfg w) with ROk l => (length l <= 1)%nat | RErr _ => True end.
+Lemma pending_exchange_at_most_one cfg q T w ixa fuel :
+  match fst (consume fuel cfg (start_retry q T) w tt (h_pending ixa) (fun _ => RErr EIncomplete)) with ROk l => (length l <= 1)%nat | RErr _ => True end.
 Proof.
-  unfold get_pending. apply (consume_result (fun r => match r with ROk l => (length l <= 1)%nat | RErr _ => True end)).
+  apply (consume_result (fun r => match r with ROk l => (length l <= 1)%nat | RErr _ => True end)).
   - intros acc. exact I.
   - intros acc i v res acc' E. unfold h_pending in E. injection E as <- _.
     destruct (i =? _); [|exact I]. destruct (negb (abort_code v =? 184)); [exact I|].
     destruct (field_of _ v 135) as [[| | | | |[n| | | | | | |]| |]|]; cbn; try lia.
     destruct (n =? 65535); cbn; lia.
+Qed.
+
+Lemma pending_at_most_one cfg w : match fst (get_pending cfg w) with ROk l => (length l <= 1)%nat | RErr _ => True end.
+Proof.
+  unfold get_pending.
+  match goal with |- context [consume LOOPFUEL cfg (start_retry ?q TIMEOUT) w tt (h_pending ?ixa) ?fin] =>
+    pose proof (pending_exchange_at_most_one cfg q TIMEOUT w ixa LOOPFUEL) as K;
+    destruct (consume LOOPFUEL cfg (start_retry q TIMEOUT) w tt (h_pending ixa) fin) as [[l|e] w1] end; cbn [fst] in K.
+  - exact K.
+  - destruct e; exact I.
 Qed.
 
 Lemma set_terminal_id_bounded cfg w :
@@ -322,9 +340,15 @@ Qed.
 Lemma end_of_day_attempts cfg st w :
   let '(_, _, w') := end_of_day cfg st w in (attempts (w_log w') <= attempts (w_log w) + 60)%nat.
 Proof.
-  unfold end_of_day. pose proof (pending_at_most_one cfg w) as L. unfold get_pending in *.
-  match goal with |- context [consume LOOPFUEL cfg (start_retry ?q TIMEOUT) w ?a ?h ?fin] =>
-    pose proof (single_attempts cfg q TIMEOUT w a h fin LOOPFUEL) as K; destruct (consume LOOPFUEL cfg (start_retry q TIMEOUT) w a h fin) as [[pend|e] w1] end; cbn [fst] in L; [|lia].
+  unfold end_of_day. pose proof (pending_at_most_one cfg w) as L.
+  assert (K : (attempts (w_log (snd (get_pending cfg w))) <= attempts (w_log w) + 20)%nat).
+  { unfold get_pending.
+    match goal with |- context [consume LOOPFUEL cfg (start_retry ?q TIMEOUT) w ?a ?h ?fin] =>
+      pose proof (single_attempts cfg q TIMEOUT w a h fin LOOPFUEL) as K0; destruct (consume LOOPFUEL cfg (start_retry q TIMEOUT) w a h fin) as [[l|e] w0] end;
+      cbn [snd]; [exact K0|].
+    assert (D : attempts (w_log (drop_cur w0)) = attempts (w_log w0)) by (unfold drop_cur; destruct (w_cur w0); reflexivity).
+    destruct e; cbn [snd]; try exact K0. rewrite D. exact K0. }
+  destruct (get_pending cfg w) as [[pend|e] w1]; cbn [fst snd] in L, K; [|lia].
   assert (F : let '(_, w2) := fold_left (fun acc p => match acc with
                                                | (ROk _, w) => cancel_by_receipt cfg p w
                                                | other => other end) pend (ROk tt, w1) in
